@@ -87,6 +87,9 @@ def _head(t):
         base = "%s(%s)" % (short_path(t[1]), "…" if t[2] else "")
     elif k in ("param", "upvar", "const", "static", "fnitem", "built"):
         base = show(t)[:40]
+        if k == "upvar":
+            base = base.replace("__", ".")      # a precise capture `log.topics` is named log__topics; capturing `log` and taking
+                                                # `.topics` inside is the same operand
     elif k == "agg":
         from terms import short_path
         base = "%s{…}" % short_path(t[1])
